@@ -1929,6 +1929,12 @@ class Exists(QuantifiedConditional):
         free_ids = [
             v._id_ for v in self._all_variable_instances_ if v is not self.variable
         ]
+        # what the quantified expression is computed from is free as well: each element of a collection that is flattened
+        # on the way (shelf.boxes -> box -> box.parts) gets its own answer
+        below = getattr(self.variable, "_child_", None)
+        while below is not None:
+            free_ids.append(below._id_)
+            below = getattr(below, "_child_", None)
         satisfied = set()
         unsatisfied = {}
         for val in self.condition._evaluate__(sources, parent=self):
